@@ -1,5 +1,5 @@
 import OnlVerif.Lemmas.Agenda
-import OnlVerif.Kernel.Step
+import OnlVerif.Lemmas.KernelRel
 /-!
 # The agenda only grows, by fresh entries that are due no earlier than now
 
@@ -58,321 +58,40 @@ theorem schedule (s : KState ℚ σ) (e : EvId) (p : Nat) (d : ℚ) (hd : 0 ≤ 
 
 end Ext
 
-theorem zero_eq : (Num.zero : ℚ) = 0 := by
-  show ((0 : ℕ) : ℚ) = 0
-  simp
+theorem zero_eq : (Num.zero : ℚ) = 0 := zero_eq'
 
-/-! ## frame facts of the primitive updates -/
+/-- `Ext` contains every leaf update of the kernel model -/
+theorem Ext.krel : KRel (Ext (σ := σ)) where
+  refl := Ext.refl
+  trans := Ext.trans
+  emit _ _ := Ext.of_frame rfl rfl rfl
+  active _ _ := Ext.of_frame rfl rfl rfl
+  shared _ _ := Ext.of_frame rfl rfl rfl
+  setProc _ _ _ := Ext.of_frame rfl rfl rfl
+  newEv _ _ _ := Ext.of_frame rfl rfl rfl
+  newLabelled _ _ _ := Ext.of_frame rfl rfl rfl
+  newReq _ _ _ _ _ := Ext.of_frame rfl rfl rfl
+  schedule s e p d hd := Ext.schedule s e p d hd
+  setOut _ _ _ := Ext.of_frame rfl rfl rfl
+  defuse _ _ := Ext.of_frame rfl rfl rfl
+  bumpCount _ _ := Ext.of_frame rfl rfl rfl
+  setUsage _ _ := Ext.of_frame rfl rfl rfl
+  eraseCb _ _ _ := Ext.of_frame rfl rfl rfl
+  addCb _ _ _ := Ext.of_frame rfl rfl rfl
+  eraseUser _ _ _ := Ext.of_frame rfl rfl rfl
+  addUser _ _ _ _ _ := Ext.of_frame rfl rfl rfl
+  addLevel _ _ _ _ _ := Ext.of_frame rfl rfl rfl
+  subLevel _ _ _ _ _ := Ext.of_frame rfl rfl rfl
+  addItem _ _ _ _ _ := Ext.of_frame rfl rfl rfl
+  tailItems _ _ := Ext.of_frame rfl rfl rfl
+  eraseItem _ _ _ := Ext.of_frame rfl rfl rfl
+  dropPutQ _ _ _ := Ext.of_frame rfl rfl rfl
+  dropGetQ _ _ _ := Ext.of_frame rfl rfl rfl
+  enqPut _ _ _ _ := Ext.of_frame rfl rfl rfl
+  enqGet _ _ _ _ := Ext.of_frame rfl rfl rfl
 
-section frames
-variable (s : KState ℚ σ)
-
-theorem ext_setEv (e : EvId) (r : EvRec ℚ) : Ext s (s.setEv e r) := Ext.of_frame rfl rfl rfl
-theorem ext_emit (o : Obs ℚ) : Ext s (s.emit o) := Ext.of_frame rfl rfl rfl
-theorem ext_setProc (p : EvId) (r : ProcRec σ) : Ext s (s.setProc p r) := Ext.of_frame rfl rfl rfl
-theorem ext_setRes (r : ResId) (x : ResRec) : Ext s (s.setRes r x) := Ext.of_frame rfl rfl rfl
-theorem ext_newEv (r : EvRec ℚ) : Ext s (s.newEv r).1 := Ext.of_frame rfl rfl rfl
-theorem ext_newLabelled (r : EvRec ℚ) : Ext s (s.newLabelled r).1 := Ext.of_frame rfl rfl rfl
-theorem ext_addCb (e : EvId) (cb : Cb) : Ext s (s.addCb e cb) := Ext.of_frame rfl rfl rfl
-theorem ext_active (a : Option EvId) : Ext s { s with active := a } := Ext.of_frame rfl rfl rfl
-theorem ext_shared (l : List (Nat × Val)) : Ext s { s with shared := l } := Ext.of_frame rfl rfl rfl
-
-theorem ext_trigger (e : EvId) (o : Outcome) : Ext s (s.trigger e o) := by
-  unfold KState.trigger
-  exact (ext_setEv s e _).trans (Ext.schedule _ _ _ _ (by rw [zero_eq]))
-
-end frames
-
-/-! ## interrupts, resources, conditions -/
-
-theorem ext_mkInterrupt (s : KState ℚ σ) (p : EvId) (c : Val) : Ext s (mkInterrupt s p c).1 := by
-  unfold mkInterrupt
-  split
-  · exact Ext.refl s
-  · split
-    · exact Ext.refl s
-    · exact ((ext_newEv s _).trans (ext_setEv _ _ _)).trans (Ext.schedule _ _ _ _ (by rw [zero_eq]))
-
-theorem ext_preemptStep (s : KState ℚ σ) (r : ResId) (e : EvId) : Ext s (preemptStep s r e) := by
-  unfold preemptStep
-  simp only
-  split
-  · split
-    · exact Ext.refl s
-    · split
-      · split
-        · exact (ext_setRes s _ _).trans (ext_mkInterrupt _ _ _)
-        · exact ext_setRes s _ _
-      · exact Ext.refl s
-  · exact Ext.refl s
-
-theorem ext_prePut (s : KState ℚ σ) (r : ResId) (e : EvId) : Ext s (prePut s r e) := by
-  unfold prePut
-  split
-  · exact ext_preemptStep s r e
-  · exact Ext.refl s
-
-theorem ext_applyPut (s : KState ℚ σ) (r : ResId) (e : EvId) : Ext s (applyPut s r e) := by
-  unfold applyPut
-  simp only
-  split
-  · exact ((ext_setRes _ _ _).trans (ext_setEv _ _ _)).trans (ext_trigger _ _ _)
-  · exact ((ext_setRes _ _ _).trans (ext_setEv _ _ _)).trans (ext_trigger _ _ _)
-  · exact ((ext_setRes _ _ _).trans (ext_setEv _ _ _)).trans (ext_trigger _ _ _)
-  · exact (ext_setRes _ _ _).trans (ext_trigger _ _ _)
-  · exact (ext_setRes _ _ _).trans (ext_trigger _ _ _)
-  · exact (ext_setRes _ _ _).trans (ext_trigger _ _ _)
-  · exact (ext_setRes _ _ _).trans (ext_trigger _ _ _)
-
-theorem ext_doPut (s : KState ℚ σ) (r : ResId) (e : EvId) : Ext s (doPut s r e).1 := by
-  unfold doPut
-  split
-  · exact (ext_prePut s r e).trans (ext_applyPut _ _ _)
-  · exact ext_prePut s r e
-
-theorem ext_doGet (s : KState ℚ σ) (r : ResId) (e : EvId) : Ext s (doGet s r e).1 := by
-  unfold doGet
-  split
-  · exact (ext_setRes _ _ _).trans (ext_trigger _ _ _)
-  · exact Ext.refl s
-
-theorem ext_dropPutQ (s : KState ℚ σ) (r : ResId) (e : EvId) : Ext s (dropPutQ s r e) := ext_setRes s _ _
-theorem ext_dropGetQ (s : KState ℚ σ) (r : ResId) (e : EvId) : Ext s (dropGetQ s r e) := ext_setRes s _ _
-
-theorem ext_scanPut (r : ResId) (q : List EvId) (s : KState ℚ σ) : Ext s (scanPut r q s) := by
-  induction q generalizing s with
-  | nil => exact Ext.refl s
-  | cons e rest ih =>
-    unfold scanPut
-    simp only
-    have h1 : Ext s (if (doPut s r e).1.triggered e then dropPutQ (doPut s r e).1 r e else (doPut s r e).1) := by
-      split
-      · exact (ext_doPut s r e).trans (ext_dropPutQ _ _ _)
-      · exact ext_doPut s r e
-    split
-    · exact h1.trans (ih _)
-    · exact h1
-
-theorem ext_scanGet (r : ResId) (q : List EvId) (s : KState ℚ σ) : Ext s (scanGet r q s) := by
-  induction q generalizing s with
-  | nil => exact Ext.refl s
-  | cons e rest ih =>
-    unfold scanGet
-    simp only
-    have h1 : Ext s (if (doGet s r e).1.triggered e then dropGetQ (doGet s r e).1 r e else (doGet s r e).1) := by
-      split
-      · exact (ext_doGet s r e).trans (ext_dropGetQ _ _ _)
-      · exact ext_doGet s r e
-    split
-    · exact h1.trans (ih _)
-    · exact h1
-
-theorem ext_triggerPut (s : KState ℚ σ) (r : ResId) : Ext s (triggerPut s r) := ext_scanPut r _ s
-theorem ext_triggerGet (s : KState ℚ σ) (r : ResId) : Ext s (triggerGet s r) := ext_scanGet r _ s
-
-theorem ext_mkPut (s : KState ℚ σ) (r : ResId) (rq : ReqData ℚ) : Ext s (mkPut s r rq).1 := by
-  unfold mkPut
-  exact (((ext_newLabelled s _).trans (ext_setRes _ _ _)).trans (ext_addCb _ _ _)).trans (ext_triggerPut _ _)
-
-theorem ext_mkGet (s : KState ℚ σ) (r : ResId) (rq : ReqData ℚ) : Ext s (mkGet s r rq).1 := by
-  unfold mkGet
-  exact (((ext_newLabelled s _).trans (ext_setRes _ _ _)).trans (ext_addCb _ _ _)).trans (ext_triggerGet _ _)
-
-theorem ext_cancelReq (s : KState ℚ σ) (e : EvId) : Ext s (cancelReq s e).1 := by
-  unfold cancelReq
-  split
-  · exact Ext.refl s
-  · split
-    · split
-      · exact (ext_dropPutQ s _ _).trans (ext_triggerPut _ _)
-      · exact Ext.refl s
-    · split
-      · exact (ext_dropGetQ s _ _).trans (ext_triggerGet _ _)
-      · exact Ext.refl s
-    · exact Ext.refl s
-
-theorem ext_condCheck (s : KState ℚ σ) (c e : EvId) : Ext s (condCheck s c e) := by
-  unfold condCheck
-  split
-  · exact Ext.refl s
-  · simp only
-    split
-    · exact ((ext_setEv s _ _).trans (ext_setEv _ _ _)).trans (ext_trigger _ _ _)
-    · split
-      · exact (ext_setEv s _ _).trans (ext_trigger _ _ _)
-      · exact ext_setEv s _ _
-
-theorem ext_foldl {α : Type} (f : KState ℚ σ → α → KState ℚ σ) (hf : ∀ s a, Ext s (f s a)) (l : List α)
-    (s : KState ℚ σ) : Ext s (l.foldl f s) := by
-  induction l generalizing s with
-  | nil => exact Ext.refl s
-  | cons a l ih => exact (hf s a).trans (ih _)
-
-theorem ext_eraseCheck (s : KState ℚ σ) (c e : EvId) : Ext s (eraseCheck s c e) := by
-  unfold eraseCheck
-  split
-  · split
-    · exact ext_setEv s _ _
-    · exact Ext.refl s
-  · exact Ext.refl s
-
-theorem ext_removeChecks (fuel : Nat) (c : EvId) (s : KState ℚ σ) : Ext s (removeChecks fuel c s) := by
-  induction fuel generalizing c s with
-  | zero => exact Ext.refl s
-  | succ n ih =>
-    unfold removeChecks
-    apply ext_foldl
-    intro s e
-    split
-    · exact (ext_eraseCheck s c e).trans (ih _ _)
-    · exact ext_eraseCheck s c e
-
-theorem ext_condBuild (s : KState ℚ σ) (c : EvId) : Ext s (condBuild s c) := by
-  unfold condBuild
-  simp only
-  split
-  · exact (ext_removeChecks _ _ s).trans (ext_setEv _ _ _)
-  · exact ext_removeChecks _ _ s
-
-theorem ext_mkCond (s : KState ℚ σ) (all : Bool) (ops : List EvId) : Ext s (mkCond s all ops).1 := by
-  unfold mkCond
-  simp only
-  split
-  · exact (ext_newLabelled s _).trans (ext_trigger _ _ _)
-  · refine ((ext_newLabelled s _).trans (ext_foldl _ ?_ _ _)).trans (ext_addCb _ _ _)
-    intro s e
-    split
-    · exact ext_condCheck _ _ _
-    · exact ext_addCb _ _ _
-
-/-! ## API calls, bursts, `_resume` -/
-
-theorem ext_doCall (s : KState ℚ σ) (self : EvId) (c : Call ℚ σ) : Ext s (doCall s self c).1 := by
-  cases c <;> simp only [doCall]
-  case timeout d v =>
-    split
-    · exact Ext.refl s
-    · rename_i hd
-      exact (ext_newLabelled s _).trans (Ext.schedule _ _ _ _ (by rw [zero_eq] at hd; exact not_lt.mp hd))
-  case event => exact ext_newLabelled s _
-  case succeed e v => split <;> first | exact Ext.refl s | exact ext_trigger s _ _
-  case fail e x => split <;> first | exact Ext.refl s | exact ext_trigger s _ _
-  case spawn st =>
-    exact (((ext_newLabelled s _).trans (ext_newEv _ _)).trans (Ext.schedule _ _ _ _ (by rw [zero_eq]))).trans
-      (ext_setProc _ _ _)
-  case interrupt p cause =>
-    split
-    · exact Ext.refl s
-    · have := ext_mkInterrupt s p cause
-      generalize mkInterrupt s p cause = r at this ⊢
-      obtain ⟨s1, o⟩ := r
-      cases o <;> exact this
-  case probe e tag => split <;> first | exact Ext.refl s | exact ext_addCb s _ _
-  case cond all ops => exact ext_mkCond s all ops
-  case request r prio pre => exact ext_mkPut s r _
-  case release r req => exact ext_mkGet s r _
-  case cancel e =>
-    have := ext_cancelReq s e
-    generalize cancelReq s e = r at this ⊢
-    obtain ⟨s1, o⟩ := r
-    cases o <;> exact this
-  case cput r a => split <;> first | exact Ext.refl s | exact ext_mkPut s r _
-  case cget r a => split <;> first | exact Ext.refl s | exact ext_mkGet s r _
-  case sput r it => exact ext_mkPut s r _
-  case sget r f => exact ext_mkGet s r _
-  case log what v => exact ext_emit s _
-  case load k => exact Ext.refl s
-  case store k v => exact ext_shared s _
-
-theorem ext_noteErr (self : EvId) (sr : KState ℚ σ × Reply) : Ext sr.1 (noteErr self sr) := by
-  unfold noteErr
-  split
-  · exact ext_emit _ _
-  · exact Ext.refl _
-
-theorem ext_runBurst (self : EvId) (b : Burst ℚ σ) (s : KState ℚ σ) : Ext s (runBurst self b s).1 := by
-  induction b generalizing s with
-  | call c k ih =>
-    simp only [runBurst]
-    exact ((ext_doCall s self c).trans (ext_noteErr self _)).trans (ih _ _)
-  | yield e st => exact Ext.refl s
-  | ret v => exact Ext.refl s
-  | raise x => exact Ext.refl s
-
-theorem ext_deliver (s : KState ℚ σ) (p e : EvId) : Ext s (deliver s p e).1 := by
-  unfold deliver
-  simp only
-  split
-  · exact ext_active s _
-  · exact (ext_active s _).trans (ext_setEv _ _ _)
-  · exact ext_active s _
-
-theorem ext_finishProc (s : KState ℚ σ) (p : EvId) (pr : ProcRec σ) (o : Outcome) : Ext s (finishProc s p pr o) := by
-  unfold finishProc
-  exact (((ext_trigger s _ _).trans (ext_emit _ _)).trans (ext_setProc _ _ _)).trans (ext_active _ _)
-
-theorem ext_register (s s' : KState ℚ σ) (p e' : EvId) (h : register s p e' = some s') : Ext s s' := by
-  unfold register at h
-  split at h
-  · cases h
-  · cases h
-    exact (ext_addCb s _ _).trans (ext_active _ _)
-
-theorem ext_resume (body : σ → Resume → Burst ℚ σ) (p : EvId) (fuel : Nat) (e : EvId) (s : KState ℚ σ) :
-    Ext s (resume body p fuel e s) := by
-  induction fuel generalizing e s with
-  | zero => exact Ext.refl s
-  | succ n ih =>
-    unfold resume
-    split
-    · exact Ext.refl s
-    · rename_i pr _
-      simp only
-      have hb : Ext s (runBurst p (body pr.st (deliver s p e).2)
-          ((deliver s p e).1.emit (.resumed p (deliver s p e).2 (deliver s p e).1.now))).1 :=
-        ((ext_deliver s p e).trans (ext_emit _ _)).trans (ext_runBurst _ _ _)
-      split
-      · exact hb.trans (ext_finishProc _ _ _ _)
-      · exact hb.trans (ext_finishProc _ _ _ _)
-      · split
-        · rename_i s3 hr
-          exact (hb.trans (ext_setProc _ _ _)).trans (ext_register _ _ _ _ hr)
-        · exact (hb.trans (ext_setProc _ _ _)).trans (ih _ _)
-
-theorem ext_deliverInterrupt (body : σ → Resume → Burst ℚ σ) (fuel : Nat) (iv p : EvId) (s : KState ℚ σ) :
-    Ext s (deliverInterrupt body fuel iv p s) := by
-  unfold deliverInterrupt
-  split
-  · exact Ext.refl s
-  · split
-    · exact Ext.refl s
-    · simp only
-      split
-      · exact (ext_setEv s _ _).trans (ext_resume _ _ _ _ _)
-      · exact ext_resume _ _ _ _ _
-
-theorem ext_runCb (body : σ → Resume → Burst ℚ σ) (fuel : Nat) (e : EvId) (l : LoopSt ℚ σ) (cb : Cb) :
-    Ext l.s (runCb body fuel e l cb).s := by
-  unfold runCb
-  split
-  · exact Ext.refl _
-  · simp only
-    cases cb with
-    | resume p => exact ext_resume _ _ _ _ _
-    | probe tag => exact ext_emit _ _
-    | stop => simp only; split <;> exact Ext.refl _
-    | intr iv =>
-      simp only
-      split
-      · exact ext_deliverInterrupt _ _ _ _ _
-      · exact Ext.refl _
-    | check c => exact ext_condCheck _ _ _
-    | build c => exact ext_condBuild _ _
-    | trigPut r => exact ext_triggerPut _ _
-    | trigGet r => exact ext_triggerGet _ _
-
+/-- the callback loop of a step only adds fresh entries that are due no earlier than now -/
 theorem ext_foldCbs (body : σ → Resume → Burst ℚ σ) (fuel : Nat) (e : EvId) (cbs : List Cb) (l : LoopSt ℚ σ) :
-    Ext l.s (cbs.foldl (runCb body fuel e) l).s := by
-  induction cbs generalizing l with
-  | nil => exact Ext.refl _
-  | cons c cs ih => exact (ext_runCb body fuel e l c).trans (ih _)
+    Ext l.s (cbs.foldl (runCb body fuel e) l).s := Ext.krel.foldCbs body fuel e cbs l
+
+theorem ext_doCall (s : KState ℚ σ) (self : EvId) (c : Call ℚ σ) : Ext s (doCall s self c).1 := Ext.krel.doCall s self c
